@@ -216,10 +216,14 @@ def run(ctx):
     if re_if is None:
         raise AnalysisError("jump-scanning isinstance test not found in the REIDS transpiler")
     # (the NV transpiler's retargeting is decided by differential execution, C08.X: which classes it tests, and how, is not read)
-    table = c04.handler_table(ctx)
-    arms = ctx._c04_arms
+    try:
+        table = c04.handler_table(ctx)
+        arms = ctx._c04_arms
+    except c04.DispatchUnread as ex_:
+        arms = None
+        ctx.note(f"C08.J: {ex_}; which instructions the executor treats as jumps is decided by C04.D")
     ex_set = set()
-    for classes, h in arms:
+    for classes, h in (arms or []):
         if h == "_handle_branch_instr":
             ex_set = {c.name for c in classes}
     core = repo.module(I.CORE_MOD)
@@ -236,7 +240,7 @@ def run(ctx):
                 out.add(c.name)
         return out
     ref = closure(with_line)
-    for label, s in (("REIDS transpiler scans", re_set), ("executor branch handler", ex_set)):
+    for label, s in (("REIDS transpiler scans", re_set),) + ((("executor branch handler", ex_set),) if arms is not None else ()):
         got = closure(s)
         ctx.check("C08.J", f"jump-classes:{label}", got == ref,
                   f"{label} {sorted(got)} but the core classes with a jump target are {sorted(ref)}: "
@@ -265,24 +269,37 @@ def run(ctx):
     ctx.check("C08.E", "REIDS:past-the-end-target-gets-a-no-op", ok_r, "the REIDS transpiler does not flag a jump to the position just past the end", repo.loc(m, re_if))
 
     # ---- C08.W
-    sigs = c04.all_signatures(ctx, table)
+    if arms is None:
+        ctx.note("C08.W: the executor's dispatch is not read (see C08.J); which registers an instruction writes is compared on executed programs by C08.X")
+        sigs = {}
+    else:
+        sigs = c04.all_signatures(ctx, table)
     n_w = 0
+    from .. import session as S_
     for c in I.core_instructions(repo):
         mn = I.field_default(repo, ev, c, "mnemonic")
-        r = repo.lookup(c, "writes_to")
+        if sigs.get(mn) is None:
+            if arms is not None:
+                ctx.note(f"{mn}: no classical handler signature (quantum hook or unsupported in the base executor)")
+            continue
+        # writes_to() is called (by the checker's interpreter) on an instance whose operand fields hold distinct marker objects; the
+        # operands it names are the fields the returned markers came from - however the method is written
         wt = None
-        if r is not None:
-            rets = A.returns(r[1])
-            if len(rets) == 1 and isinstance(rets[0].value, ast.List):
-                wt = []
-                for e in rets[0].value.elts:
-                    if A.is_self_attr(e):
-                        wt.append(repo.property_alias(c, e.attr) or e.attr)
-                    else:
-                        wt = None
-                        break
+        try:
+            flds = [f_[0] for f_ in repo.dataclass_fields(c)]
+            marks = {f_: reg("R", 1 + k_) for k_, f_ in enumerate(flds)}
+            inst = C.Obj(c, dict(marks))
+            interp = C.Interp(repo, ev, S_.scenario(), c)
+            r_ = S_.outcome(interp.method, inst, "writes_to", [], {}, None)
+            if r_[0] == "ok" and isinstance(r_[1], (list, tuple)):
+                by_id = {id(v_): f_ for f_, v_ in marks.items()}
+                if all(id(x_) in by_id for x_ in r_[1]):
+                    wt = [repo.property_alias(c, by_id[id(x_)]) or by_id[id(x_)] for x_ in r_[1]]
+        except AnalysisError as ex_:
+            ctx.error("C08.W", f"{c.name}.writes_to cannot be evaluated: {ex_}")
+            continue
         if wt is None:
-            ctx.error("C08.W", f"{c.name}.writes_to is not a list of self attributes")
+            ctx.error("C08.W", f"{c.name}.writes_to() does not return a list of the instruction's own operands")
             continue
         sig = sigs.get(mn)
         if sig is None:
@@ -298,7 +315,8 @@ def run(ctx):
         ctx.check("C08.W", f"{mn}:writes_to=executor-writes", sorted(wt) == sorted(written),
                   f"{c.name}.writes_to() names {wt} but the executor's handler for `{mn}` writes register operand(s) {written}: the transpiler would "
                   f"{'miss' if set(written) - set(wt) else 'wrongly assume'} a register write", c.loc(), sample={"mnemonic": mn, "writes_to": wt, "executor_writes": written})
-    ctx.anchor("C08.W", "instruction classes with a classical handler signature", n_w, 15)
+    if arms is not None:
+        ctx.anchor("C08.W", "instruction classes with a classical handler signature", n_w, 15)
 
     # ---- C08.V / C08.U  (abstract execution)
     check_tracking(ctx, nvt, tp, reg, corem, vanm)
